@@ -13,7 +13,8 @@ cmp -s .build/Consts.v.new coq/Gen/Consts.v || cp .build/Consts.v.new coq/Gen/Co
 python3 - <<'P'
 import json,subprocess,os
 for mod,specs in sorted(json.load(open("tools/rs2v_targets.json")).items()):
-    out=subprocess.run(["python3","tools/rs2v.py"]+specs,stdout=subprocess.PIPE,text=True).stdout
+    cmd=["python3","tools/rs2sm.py",json.dumps(specs)] if isinstance(specs,dict) else ["python3","tools/rs2v.py"]+specs
+    out=subprocess.run(cmd,stdout=subprocess.PIPE,text=True).stdout
     path="coq/Gen/%s.v"%mod
     if out.strip() and (not os.path.exists(path) or open(path).read()!=out):
         open(path,"w").write(out)
